@@ -524,15 +524,15 @@ def run_unit(chk, unit):
         refuted = refute(unit, set(posts) if not bad else None)
     violated = False
     for n in posts:
-        if st[n] == 'sat' and n in unit.confirm and not (refuted.get(n) and refuted[n][2]):
+        if st[n] in ('sat', 'unknown') and n in unit.confirm and not (refuted.get(n) and refuted[n][2]):
             sc = unit.confirm[n][0]()
             obs = run_replay(sc)
             try:
                 rep = (not unit.confirm[n][1](sc, obs)) if 'driver_error' not in obs else None
             except Exception as e:
                 obs, rep = dict(obs, native_check_error=repr(e)), None
-            i0 = [i for i in by[n] if i['verdict'] == 'sat'][0]
-            refuted[n] = ('solver sat on the symbolic run (%s); confirmed with a designed witness scenario\n%s' % (i0['describe'], i0.get('model', '')),
+            i0 = ([i for i in by[n] if i['verdict'] == 'sat'] or [i for i in by[n] if i['verdict'] != 'unsat'])[0]
+            refuted[n] = ('solver %s on the symbolic run (%s); designed witness scenario replayed on the real code\n%s' % (i0['verdict'], i0['describe'], i0.get('model', '')),
                           {'scenario': sc, 'observed': obs, 'replay_cmd': '/venv/bin/python %s <scenario.json>' % REPLAY}, rep)
     for n in posts:
         insts = by[n]
@@ -542,7 +542,8 @@ def run_unit(chk, unit):
         r = refuted.get(n)
         if r is not None and r[2]:
             violated = True
-            detail['refuted_by'] = 'bounded model query (concrete spines, loops unrolled): solver sat' + (
+            detail['refuted_by'] = ('bounded model query (concrete spines, loops unrolled): solver sat' if r[0].startswith('bounded') else
+                                    'obligation not proved; a designed witness input violates it on the real code') + (
                 '; replayed on the real code: reproduced' if r[2] else '; no native predicate for this clause (not replayed)')
             chk.obligation(n, unit.label, 'z3+bounded-model-query', report.VIOLATED, tsum, detail=detail, model=r[0], replay=r[1],
                            reproduced=True if r[2] else None)
@@ -615,7 +616,7 @@ def sf_T(w):
         return z3.Or(z3.Not(fl), objs.dom[s])
 
     def T(s, v):
-        return z3.If(cond(s), X.MetricS.mk(xreal.mul(xreal.lit(-1.0), X.MetricS.value(v)), z3.BoolVal(False), xreal.lit(0.0)), v)
+        return z3.If(cond(s), X.MetricS.mk(xreal.mul(xreal.lit(-1.0), X.MetricS.value(v)), X.MetricS.has_std(v), X.MetricS.std(v)), v)
     return T, cond
 
 
@@ -724,6 +725,9 @@ def sf_post_evaluate(p):
     out += [
         (R + 'negates_objectives', per_metric(lambda r, s: z3.Implies(is_obj(s), z3.And(
             dom(F['metrics'][r])[s], value(val(F['metrics'][r])[s]) == xreal.neg(value(val(B['metrics'][r])[s])))))),
+        (R + 'std_kept', per_metric(lambda r, s: z3.And(
+            X.MetricS.has_std(val(F['metrics'][r])[s]) == X.MetricS.has_std(val(B['metrics'][r])[s]),
+            z3.Implies(X.MetricS.has_std(val(B['metrics'][r])[s]), X.MetricS.std(val(F['metrics'][r])[s]) == X.MetricS.std(val(B['metrics'][r])[s]))))),
         (R + 'only_objectives', per_metric(lambda r, s: z3.Implies(z3.Not(is_obj(s)), z3.And(
             dom(F['metrics'][r])[s], metric_eq(val(F['metrics'][r])[s], val(B['metrics'][r])[s]))))),
         (R + 'no_metric_added_or_lost', QJ(xs, lambda j, r: QS(run, lambda s: z3.Implies(
@@ -809,6 +813,7 @@ def n_base_sees_suggested(sc, obs):
 SF_NATIVE = {
     'C20.SignFlip.evaluate.negates_objectives': n_sf_value('neg'),
     'C20.SignFlip.evaluate.only_objectives': n_sf_value('aux'),
+    'C20.SignFlip.evaluate.std_kept': n_sf_value('std'),
     'C20.SignFlip.evaluate.no_metric_added_or_lost': n_status,
     'C20.SignFlip.evaluate.status_untouched': n_status,
     'C20.SignFlip.evaluate.base_sees_suggested_parameters': n_base_sees_suggested,
@@ -1551,9 +1556,17 @@ def hc_inv_copyback(it, fr, ctx):
 
     def done(r):
         c = cs.arr[xs.pos[r]]
-        return z3.And(cur['params'][r] == ent['params'][r], cur['infeas'][r] == ent['infeas'][r], cur['fmset'][r] == ent['fmset'][c],
-                      z3.Implies(ent['fmset'][c], z3.And(cur['metrics'][r] == ent['metrics'][c], cur['rest'][r] == ent['rest'][c])))
+        return z3.And(cur['params'][r] == ent['params'][r], hc_copied(cur, ent, ent, r, c))
     return batch_loop_frame(run, ctx, xs, cur, ent, done)
+
+
+def hc_copied(F, H0, B, r, c):
+    """state of suggestion r (in F; H0 = before) given the evaluated copy c (in B): infeasible in the wrapped experimenter => marked
+    infeasible and completed with the copy's measurement (an empty one if it has none); otherwise the copy's measurement, mark untouched"""
+    same_m = z3.And(F['metrics'][r] == B['metrics'][c], F['rest'][r] == B['rest'][c])
+    return z3.If(B['infeas'][c],
+                 z3.And(F['infeas'][r], F['fmset'][r], z3.If(B['fmset'][c], same_m, z3.And(F['metrics'][r] == X.MDI.empty(), F['rest'][r] == X.MRest0))),
+                 z3.And(F['infeas'][r] == H0['infeas'][r], F['fmset'][r] == B['fmset'][c], z3.Implies(B['fmset'][c], same_m)))
 
 
 E.LOOPS[(NZ, 'HyperCubeExperimenter.evaluate', 1)] = E.LoopSpec(hc_inv_assign, ghost=X.ALL)
@@ -1592,8 +1605,7 @@ def hc_post(p):
         (R + 'evaluates_base_at_mapped_point', z3.And(same_n, QJ(xs, lambda j, r: c['pre']['params'][cj(j)] == X.toparrow(
             conv.term, X.featrow(evconv.term, H0['params'][r]))))),
         (R + 'evaluates_copies', QJ(xs, lambda j, r: z3.Not(H0['talloc'][cj(j)]))),
-        (R + 'measurement_copied', QJ(xs, lambda j, r: z3.And(F['fmset'][r] == B['fmset'][cj(j)], z3.Implies(B['fmset'][cj(j)], z3.And(
-            F['metrics'][r] == B['metrics'][cj(j)], F['rest'][r] == B['rest'][cj(j)]))))),
+        (R + 'measurement_copied', QJ(xs, lambda j, r: hc_copied(F, H0, B, r, cj(j)))),
         (R + 'infeasibility_propagated', QJ(xs, lambda j, r: F['infeas'][r] == z3.Or(H0['infeas'][r], B['infeas'][cj(j)]))),
     ]
     return out + post_common(R, p)
@@ -1604,6 +1616,20 @@ def hc_scenario(p, model):
     for i, t in enumerate(sc['batch']):
         t['params'] = {'h%d' % k: v for k, v in enumerate(t['params'].values())}
     return sc
+
+
+def n_hc_copied(sc, obs):
+    if obs.get('exception') is not None:
+        return False
+    for e, t in zip(_scripted(sc), obs['after']):
+        want_fm = True if e['infeasible'] else e['has_fm']
+        if t['has_fm'] != want_fm or t['infeasible'] != e['infeasible']:
+            return False
+        want = e['metrics'] if e['has_fm'] else {}
+        if want_fm and (set(t['metrics']) != set(want) or not all(same_float(t['metrics'][n]['value'], m['value']) and
+                                                                  same_float(t['metrics'][n]['std'], m.get('std')) for n, m in want.items())):
+            return False
+    return True
 
 
 def n_infeasibility(sc, obs):
@@ -1627,7 +1653,7 @@ def units_infeasible_hypercube():
     out.append(Unit('HyperCubeExperimenter.evaluate', 'HyperCube', [(NZ, 'HyperCubeExperimenter.__init__'), (NZ, 'HyperCubeExperimenter.evaluate')],
                     hc_entry(), hc_post, bentry=hc_entry(BOUNDED), scenario=hc_scenario,
                     native={R + 'infeasibility_propagated': n_infeasibility, R + 'completes': n_completes(),
-                            R + 'parameters_unchanged': n_params_unchanged, R + 'measurement_copied': n_measurement_untouched},
+                            R + 'parameters_unchanged': n_params_unchanged, R + 'measurement_copied': n_hc_copied},
                     rentry=hc_entry(never_infeasible=True), rknown=rknown))
     return out
 
@@ -2216,7 +2242,11 @@ def pb_post(p):
         else:
             raise Unsupported('the permutation dict is not built from rng.permuted(feasible_values)')
         # numpy scalar types: np.float64 is a float, np.str_ is a str, np.int64 is NOT an int (ParameterValue accepts str|int|float|bool)
-        types.append(z3.Or(cfg[0].tag == 0, cfg[0].tag == 1))
+        vals_from = [q for q in (rm.xs.parts if isinstance(rm.xs, X.ZipList) else []) if getattr(q, 'source', None) is F]
+        if vals_from and getattr(vals_from[-1], 'python_scalars', False):
+            types.append(z3.BoolVal(True))          # ndarray.tolist(): python scalars of the feasible values' own types
+        else:
+            types.append(z3.Or(cfg[0].tag == 0, cfg[0].tag == 1))
     all_names = z3.And(*[z3.Or(*[key == n for key, _ in rows]) for n in run.names]) if rows else z3.BoolVal(False)
     tag_dom = z3.And(*[z3.And(c.tag >= 0, c.tag <= 2) for _, c in run.cfgs.values()])
     out.append((R + 'bijection', z3.And(all_names, *clauses)))
@@ -2229,13 +2259,34 @@ def pb_int_class(p):
     return z3.Or(*[c.tag == 2 for _, c in p.run.cfgs.values()]) if p.run.cfgs else z3.BoolVal(False)
 
 
+def pb_witness_scenario():
+    return {'kind': 'evaluate', 'base': {'params': [{'name': 'd', 'type': 'DISCRETE', 'feasible': [1.0, 2.0, 3.0, 4.0]},
+                                                    {'name': 'c', 'type': 'CATEGORICAL', 'feasible': ['a', 'b', 'c']}],
+                                         'metrics': [{'name': 'obj', 'goal': 'MINIMIZE'}]},
+            'wrappers': [{'module': 'permuting_experimenter', 'class': 'PermutingExperimenter', 'kwargs': {'parameters_to_permute': ['d', 'c'], 'seed': 11}}],
+            'batch': [{'params': {'d': 2.0, 'c': 'a'}}], 'script': []}
+
+
+def n_tables_bijective(sc, obs):
+    tabs = list((obs.get('tables') or {}).values())
+    if len(tabs) != 1:
+        return False
+    feas = {p['name']: p['feasible'] for p in sc['base']['params']}
+    for pn, row in tabs[0].items():
+        keys, vals = [a for a, b in row], [b for a, b in row]
+        if sorted(keys, key=repr) != sorted(feas[pn], key=repr) or sorted(vals, key=repr) != sorted(feas[pn], key=repr):
+            return False
+    return set(tabs[0]) == set(sc['wrappers'][0]['kwargs']['parameters_to_permute'])
+
+
 def units_permuting_bijection():
     known = {}
     n = 'C20.Permuting.__init__.permuted_values_usable_as_parameter_values'
     f = CHK.finding_for(n) if CHK is not None else None
     if f is not None:
         known[n] = (f['what'], pb_int_class)
-    return [Unit('PermutingExperimenter.__init__(bijection)', 'Permuting', [(PE, 'PermutingExperimenter.__init__')], pb_entry, pb_post, known=known)]
+    return [Unit('PermutingExperimenter.__init__(bijection)', 'Permuting', [(PE, 'PermutingExperimenter.__init__')], pb_entry, pb_post, known=known,
+                 confirm={'C20.Permuting.__init__.bijection': (pb_witness_scenario, n_tables_bijective)})]
 
 
 # =========================================================================================== SwitchExperimenter.evaluate
@@ -2255,10 +2306,8 @@ def sw_inv(it, fr, ctx):
 
     def done(r):
         completed = z3.And(cur['fmset'][r], z3.ForAll([s], X.MDI.dom(cur['metrics'][r])[s] == (s == mname)))
-        if getattr(run, 'base_never_infeasible', False):
-            # residual run (trials not infeasible before, wrapped experimenters mark none infeasible): every processed trial is completed
-            return z3.And(cur['params'][r] == ent['params'][r], cur['infeas'][r] == ent['infeas'][r], z3.Or(completed, ent['infeas'][r]))
-        return z3.And(cur['params'][r] == ent['params'][r], cur['infeas'][r] == ent['infeas'][r], z3.Or(trial_unchanged(cur, ent, r), completed))
+        marked = z3.And(cur['infeas'][r], cur['fmset'][r], cur['metrics'][r] == X.MDI.empty())
+        return z3.And(cur['params'][r] == ent['params'][r], z3.Or(marked, z3.And(cur['infeas'][r] == ent['infeas'][r], completed)))
     return batch_loop_frame(run, ctx, xs, cur, ent, done)
 
 
